@@ -52,6 +52,13 @@ CHECKS["C18"] = {
     "technique": "TLA+ spec + TLC (safety, action property); behaviours replayed into the real contexts; trace validation of concurrent runs by TLC",
 }
 
+CHECKS["C02"] = {
+    "text": "spec/Independence.tla (on top of Pipeline.tla): an application of a set is the per-tuple function applied to every member; TLC checks that the batch semantics (where the stack and the min-count live) agrees with it over all enumerated schedules, and that elementary counts are additive; the schedules are replayed exactly. spec/Trace_C02.tla validates traces recorded from ~50 real operator instances driven through 9 container kinds: a trace is accepted iff ONE function of (direction, input tuple) explains every observation of a handle's whole history and elementary counts are sums of per-tuple counts.",
+    "design_ref": "DESIGN.md §5.2",
+    "note": "quick: sets of <= 3 tuples from a pool of 5, ~2600 trace events / ~25 000 tuple observations (sets up to 2000 tuples); thorough: sets of <= 4, 200 events per handle, sets up to 100 000 tuples. Coor32 containers are a separate value class. The recorder forces revisits (a run with too few is a tool error, not a pass); the binding is self-tested on every run.",
+    "technique": "TLA+ spec + TLC enumeration of schedules replayed into the library; trace validation of recorded histories by TLC (learned-function trace spec)",
+}
+
 _claimed = set(CHECKS)
 _NA_FIXED = {
     "C05": NA_REASON_NUMERIC,
